@@ -67,6 +67,12 @@ RULE = ("cases = corpus + every sequence of length <=3 (thorough: <=4) over the 
         "restarts at 0 - takes one or two checkpoints and restores every id of both lives: its ids must be new "
         "(`ids_distinct_across_restart`), every earlier file unchanged (`earlier_life_checkpoint_changed`), every restore its own "
         "state; the model predicts the skipped-to ids from Model.freeSeq. "
+        "+ a SPREAD-RESTART family (kind Q, seeded C20-14; constructive, 686 cases, thorough 1400): the first life takes 2..4 "
+        "checkpoints spread over 2..4 milliseconds in every advance pattern (so its last millisecond M holds suffixes >= 1 and, in "
+        "most patterns, no `_000000`) and ends by a clean exit (`Y99`), a kill after the write (`Y5`) or an exit after a restore "
+        "(`V<i>.99`); the new store starts in the SAME millisecond M or 1 ms later and takes 1..4 checkpoints, without an advance or "
+        "with one advance before its j-th checkpoint - only its first id finds `M_000000` free, the later ones (own sequence > 0) run "
+        "into the first life's files - and then EVERY id of both lives is restored (same clauses as above). "
         "+ a SPLIT-WRITE family (kind Q, op W<p>.<sel>.<a>; 14 fixed + 5 random histories, thorough 40 random: empty store, one "
         "key, earlier checkpoints with and without a retention victim, max_checkpoints 0, multi-byte / escaped / 2.8 kB strings, "
         "f64::MAX / i64::MIN / subnormal numbers, objects, a 70-level nest, a value that does not read back): the hook "
